@@ -1,5 +1,7 @@
 pub mod c01;
 pub mod c02;
+pub mod c11;
+pub mod c16;
 
 pub fn lab() {
     use crate::world::*;
